@@ -32,9 +32,9 @@ class AssignmentSet:
     def __merge__(self, other, new_set):
         merged = AssignmentSet()
         for ei in new_set:
-            try:
+            if ei in self._encoded_keys:
                 i = self.decode_item(ei)
-            except KeyError:
+            else:
                 i = other.decode_item(ei)
             merged.add(i)
         return merged
